@@ -59,6 +59,11 @@ def check_expectations(sc, impl):
     nobs = len(sc.get("observe", []))
     obs = [r["result"] for r in res[len(res) - nobs:]] if nobs else []
     for idx, rx, why in sc["expect"]:
+        if idx == "all":
+            # the expectation speaks about everything observed, taken together
+            if not re.search(rx, " || ".join(obs)):
+                return False, {"why": "%s (observed: %s)" % (why, " || ".join(obs)), "results": res}
+            continue
         if idx >= len(obs) or not re.search(rx, obs[idx]):
             return False, {"why": "%s (observed: %s)" % (why, obs[idx] if idx < len(obs) else "<nothing>"), "results": res}
     return True, {"matches_order": "expectations"}
@@ -239,6 +244,17 @@ SCENARIOS = {
                      {"do": "release", "thread": "D"}, {"do": "join", "thread": "F"}],
              observe=["drain fr", "feed fr c0 bf=resume prefix=cp dump=1", "drain fr"],
              expect=[(2, r"k=k2;", "the document written (CAS = checkpoint + 1) while the first run was delivering is delivered by no later run")]),
+        dict(name="first-resume-run-stopped-in-the-middle-of-its-backfill-after-a-rewritten-document", kind="mem",
+             setup=["clock t=2097152", 'set c0 k0 exp=0 raw=0 v={"w":0}', "clock t=3145728", 'set c0 k1 exp=0 raw=0 v={"w":1}',
+                    "clock t=4194304", 'set c0 k2 exp=0 raw=0 v={"w":2}', "clock t=5242880", 'set c0 k0 exp=0 raw=0 v={"w":3}'],
+             threads={},
+             script=[{"do": "claim", "thread": "D", "point": "feed.deliver"}, {"do": "park", "thread": "D", "point": "feed.deliver", "nth": 2},
+                     {"do": "spawn", "thread": "F", "line": "feed fr c0 bf=resume prefix=cp dump=1"},
+                     {"do": "await", "thread": "D", "point": "feed.deliver"},
+                     {"do": "spawn", "thread": "S", "line": "stopfeed fr"}, {"do": "sleep", "ms": 60},
+                     {"do": "release", "thread": "D"}, {"do": "join", "thread": "S"}, {"do": "join", "thread": "F"}],
+             observe=["drain fr", "feed fr c0 bf=resume prefix=cp dump=1", "drain fr"],
+             expect=[("all", r"(?=.*k=k0;)(?=.*k=k1;)(?=.*k=k2;)", "a document is delivered by no run: the first run was stopped in the middle of its backfill and the resumed run skipped what the first had not reached")]),
         dict(name="checkpoint-skips-a-write-overtaken-by-a-later-one", setup=["feed fr c0 bf=resume prefix=cp", "clock t=2097152"],
              threads={"A": 'set c0 k1 exp=0 raw=0 v={"w":1}'},
              script=[{"do": "park", "thread": "A", "point": "post.before"}, {"do": "spawn", "thread": "A", "line": 'set c0 k1 exp=0 raw=0 v={"w":1}'},
